@@ -2,3 +2,38 @@
 From RainVerif Require Import Params.
 From RainVerif.model Require Import Bytes Key Version Lsm LsmSpec DbSpec.
 Open Scope N_scope.
+
+From RainVerif.proofs Require Import SelectProofs LsmProofs.
+Open Scope N_scope.
+
+(** a live snapshot sees the same contents after any admissible run that does not release it *)
+Theorem C03_snapshot_stable :
+  forall mfs steps s q, lsm_wf_b s = true -> In q (l_snaps s) -> run_adm mfs s steps ->
+    ~ In (SRelease q) steps ->
+    let s' := fold_left (lsm_step true true mfs) steps s in
+    forall k, visible (all_entries s') q k = visible (all_entries s) q k
+              /\ db_get_at s' k q = db_get_at s k q.
+Proof. exact snapshot_stable. Qed.
+Print Assumptions C03_snapshot_stable.
+
+
+(** [l_snaps] is a multiset: [q] keeps its view as long as it is released fewer times than held *)
+Example C03_releases_def : forall q st r,
+  releases q [] = O /\
+  releases q (st :: r) = match st with
+                         | SRelease q' => ((if N.eqb q' q then 1 else 0) + releases q r)%nat
+                         | _ => releases q r
+                         end.
+Proof. intros q st r. split; [reflexivity|destruct st; reflexivity]. Qed.
+
+Theorem C03_snapshot_stable_multiset :
+  forall mfs steps s q, lsm_wf_b s = true -> run_adm mfs s steps ->
+    (releases q steps < count_occ N.eq_dec (l_snaps s) q)%nat ->
+    let s' := fold_left (lsm_step true true mfs) steps s in
+    forall k, visible (all_entries s') q k = visible (all_entries s) q k
+              /\ db_get_at s' k q = db_get_at s k q.
+Proof. exact snapshot_stable_multiset. Qed.
+Print Assumptions C03_snapshot_stable_multiset.
+
+(** * Non-vacuity: a run reaching three levels, compacting twice under a live snapshot *)
+
